@@ -335,7 +335,10 @@ def sx(e):
     if k == "if":
         return "(if %s %s%s)" % (sx(e[1]), sx(as_block(e[2])), "" if e[3] is None else " " + sx(as_block(e[3])))
     if k == "ifx":
-        return "(if %s %s %s)" % (sx(e[1]), sx(e[2]), sx(e[3]))
+        # the source rendering braces a bare branch whose text would start with `(` (see `src`): say the same here
+        def bare(x):
+            return ("block", [x]) if operand(x).startswith("(") else x
+        return "(if %s %s %s)" % (sx(e[1]), sx(bare(e[2])), sx(bare(e[3])))
     if k == "ifset":
         return "(ifset %s %s %s %s%s)" % (e[1], T.canon(e[2]), sx(e[3]), sx(as_block(e[4])),
                                           "" if e[5] is None else " " + sx(as_block(e[5])))
